@@ -110,7 +110,9 @@ TPub ==
   LET t == Ev.t  k == Ev.k  pre == kv[k]  ts == T3(Ev.ts)  exp == T3(Ev.exp)
       p == pend[t]
       new == IF Ev.kind \in {1, 2} THEN S!Rec(ts, exp, IF p.on THEN Written(p, pre) ELSE UnknownVal)
-             ELSE IF Ev.kind = 3 THEN Gone(ts) ELSE S!NoRec
+             \* an expiry removal (kind 4) retires the generation at the present time: for the refusals that
+             \* race with it, it is a delete stamped `now` (the code refuses explicit timestamps <= that instant)
+             ELSE Gone(ts)
       \* C07: an accepted write never lands on a state carrying an equal or newer version; exactly
       \* one creator wins; C11: only an expired current generation is removed by expiry
       bad == CASE Ev.kind = 1 -> pre.p
